@@ -5,6 +5,7 @@
 package harness
 
 import (
+	"errors"
 	"encoding/binary"
 	"encoding/json"
 	"fmt"
@@ -186,9 +187,27 @@ func RunCase(p *Prop, c any) error {
 	}
 	if err != nil {
 		RecordFailure(p, c, err)
+		var he *HangError
+		if errors.As(err, &he) && os.Getenv("VERIF_FAILDIR") != "" {
+			// A call of the library never returned: the goroutine running it is still alive and may hold
+			// locks, and every attempt to shrink the case would wait for the watchdog again. Report the
+			// case as it is and stop this process.
+			fmt.Fprintf(os.Stderr, "--- %v\nHANG: the case was recorded without shrinking; the process stops here\n", err)
+			CleanupScratch()
+			DumpStats()
+			os.Exit(1)
+		}
 	}
 	return err
 }
+
+// HangError is returned by a watchdog: a call of the library did not return in time.
+type HangError struct{ msg string }
+
+func (e *HangError) Error() string { return e.msg }
+
+// hangf is errf for watchdog verdicts.
+func hangf(format string, a ...any) error { return &HangError{msg: fmt.Sprintf(format, a...)} }
 
 var excludeSet map[string]bool
 
